@@ -49,6 +49,10 @@ func VerifReassignByRole(requests []*internalpb.RelocateBatchRequest, survivors 
 	return shares, leader, grains, failures.items()
 }
 
+func VerifSurvivingPeersExcept(peers []*cluster.Peer, target *cluster.Peer) []*cluster.Peer {
+	return survivingPeersExcept(peers, target)
+}
+
 func VerifBuildRelocateBatchRequests(departed string, actors []*internalpb.Actor, grains []*internalpb.Grain) []*internalpb.RelocateBatchRequest {
 	return buildRelocateBatchRequests(departed, actors, grains)
 }
